@@ -1,0 +1,10 @@
+//go:build verif
+
+// Contracts for the deductive checks under /verif (comment-only; no code).
+
+package hamt
+
+// Find reads the shard tree (it may load and cache child shards; none of that state is
+// visible to the directory layer above)
+//@ func (*Shard).Find
+//@   assumed
